@@ -251,13 +251,15 @@ def make_cases(tier):
     return cs
 
 
-def be_cases(tier):
+def be_cases(tier, rmw_only=False):
     """forced big-endian configuration: the read-modify-write path is lock; read; op; write; unlock"""
     cs = []
     kinds = [('add', 0), ('xchg', 0), ('cas', 0), ('sub', 0)] if tier == 'quick' else [('add', 0), ('add', 1), ('sub', 0), ('and', 0), ('or', 0), ('xor', 0), ('xchg', 0), ('cas', 0), ('cas', 1), ('cas', 2)]
     for w in ((0, 5) if tier == 'quick' else range(7)):
         for (k1, v1), (k2, v2) in itertools.combinations_with_replacement(kinds, 2):
             cs.append(('be 2x1 rmw', [opw(k1, w, variant=v1)], [opw(k2, w, variant=v2)]))
+    if rmw_only:
+        return cs
     # atomic load / store next to a read-modify-write of the same cell
     for w in ((0, 5) if tier == 'quick' else range(7)):
         for (k1, v1) in kinds[:3] if tier == 'quick' else kinds:
@@ -305,7 +307,7 @@ def sched_part(chk, tier, be_only=False, origin_prop='C16'):
                              'weight': nops ** len(threads) * (3 if fl == 'tsan' else 1)})
     exes_be, dbe = build(flavours, root, be=True)
     dirs.append(dbe)
-    for c in be_cases(tier):
+    for c in be_cases(tier, rmw_only=be_only):
         mix, threads = c[0], c[1:]
         words = ['%#x:%#x' % INIT] + ['.'.join(t) for t in threads]
         nops = sum(len(t) for t in threads)
